@@ -42,8 +42,19 @@ def make_wrapper(alias):
 def _p(params):
     if params is None:
         return None
+    import datetime
+    import decimal
+
+    def one(x):
+        if isinstance(x, (int, float, str, type(None))):
+            return x
+        if isinstance(x, decimal.Decimal):
+            return str(x)                       # what Django's sqlite adapter stores
+        if isinstance(x, (datetime.datetime, datetime.date)):
+            return x.isoformat(' ') if isinstance(x, datetime.datetime) else x.isoformat()
+        return repr(x)
     try:
-        return [x if isinstance(x, (int, float, str, type(None))) else repr(x) for x in params]
+        return [one(x) for x in params]
     except TypeError:
         return repr(params)
 
